@@ -2,10 +2,18 @@
 
 E-grid.  Section "aggregate": full product
     system x ground-state energy of molecule 0 (E0) x ground-state offset of every molecule
-    (e0) x bath x temperature x condition x (relaxation_hamiltonian given?) x
-    (temperature by argument / from the bath)
+    (e0) x bath x temperature x condition x relaxation_hamiltonian in {not given, the
+    aggregate's own H, another operator commuting with H, another operator NOT commuting
+    with H} x (temperature by argument / from the bath)
 (quick tier: E0 and e0 not both non-zero -- either displaces the whole aggregate Hamiltonian
-by a constant, E0 resp. N*e0, the combinations only add further values of that constant)
+by a constant, E0 resp. N*e0, the combinations only add further values of that constant;
+the two "another operator" kinds and the two multi-scale systems as complete sub-products at
+E0 = e0 = 0 without bath, temperature by argument; thorough: "another operator" with E0 in
+{0, 1000}, e0 = 0, temperature by argument, the multi-scale systems with e0 = 0; histories
+with "another operator": temperature by argument, with bath, at 0 and 77 K)
+The systems include MULTI-SCALE spectra (a 1 1/cm vibrational mode resp. two sites 1 1/cm
+apart next to gaps of 100-10000 1/cm): temperatures at which kT is far below the total
+spread of the levels and yet several levels carry population.
 and inside every point the state is requested in every request context: outside any basis
 context, inside eigenbasis_of(H), inside the eigenbasis of another operator X, nested
 (X then H, H then X), and the same three X-containing contexts with a COMPLEX Hermitian
@@ -72,7 +80,11 @@ physical operator.  Oracles (reference model mc/refmodels/boltzmann.py, log spac
 
 Defining basis: weak coupling -> eigenbasis of H (band = states >= Nb[0]); strong coupling
 -> site basis with site reorganisation energies subtracted (not subtracted when a
-relaxation_hamiltonian is supplied, as documented); molecule and aggregate thermal reduced
+relaxation_hamiltonian is supplied, as documented).  With a relaxation_hamiltonian R
+(documented: "Hamiltonian according to which we form thermal equilibrium") the energies AND,
+for weak coupling, the defining basis are those of R: weak -> eigenbasis of R, populations
+Boltzmann in R's eigenvalues; strong -> site basis, Boltzmann in R's site diagonal.  R is a
+Hamiltonian object created outside all contexts from a site-basis matrix; molecule and aggregate thermal reduced
 density matrix -> eigenbasis of the respective H (all bands, energies as they stand in H: a
 molecular H starts at 0, an aggregate's at the sum of the molecular ground-state energies).
 Plain `thermal`: the library defines it on the diagonal of H in the basis current at the
@@ -100,6 +112,7 @@ T_EXTRA = [0.1, 3, 15, 18, 19, 21, 25, 40, 50, 100, 200, 500, 3e3, 1e5]
 
 _M2 = {"omega": 200.0, "n0": 2, "n1": 2, "hr": 0.3}
 _M3 = {"omega": 150.0, "n0": 3, "n1": 3, "hr": 0.5}
+_MSOFT = {"omega": 1.0, "n0": 3, "n1": 2, "hr": 0.3}      # quantum ~ kT at 1-2 K
 
 SYSTEMS = {
     # name: (site energies 1/cm, J spec, modes per site, mult)
@@ -111,6 +124,10 @@ SYSTEMS = {
     "dim_mode2": ([10000.0, 10300.0], 100.0, [[_M2], []], 1),
     "trimer_chain": ([10000.0, 10200.0, 10500.0], 100.0, None, 1),
     "dim_g1_J05": ([10000.0, 10001.0], 0.5, None, 1),     # gap ~ kT at 1-2 K
+    # MULTI-SCALE spectra: level spacings ~ kT at 1-2 K next to gaps 100-10000 times larger
+    # (kT far below the total spread of the levels, yet several levels populated)
+    "dim_softmode": ([10000.0, 10300.0], 100.0, [[_MSOFT], []], 1),
+    "trimer_neardeg": ([10000.0, 10001.0, 10400.0], [0.5, 0.0, 30.0], None, 1),
     # thorough only
     "dim_desc_J100": ([10100.0, 10000.0], 100.0, None, 1),
     "dim_degen_J100": ([10000.0, 10000.0], 100.0, None, 1),
@@ -126,7 +143,8 @@ SYSTEMS = {
     "trimer_chain_m2": ([10000.0, 10200.0, 10500.0], 100.0, None, 2),
 }
 SYS_QUICK = ["mono", "dim_g100_J0", "dim_g100_J100", "dim_desc_J0", "dim_g1000_J100",
-             "dim_mode2", "trimer_chain", "dim_g1_J05"]
+             "dim_mode2", "trimer_chain", "dim_g1_J05", "dim_softmode", "trimer_neardeg"]
+SYS_MULTISCALE = ("dim_softmode", "trimer_neardeg")
 SYS_THOROUGH = list(SYSTEMS)
 
 MOLECULES = {
@@ -151,6 +169,13 @@ CONDS = ["thermal", "tes_weak", "tes_strong", "impulsive"]
 # inXH / inHX: nested, non-commuting contexts; ...Xc...: X complex Hermitian (complex basis)
 CTXS = ["out", "inH", "inX", "inXH", "inHX", "inXc", "inXcH", "inHXc"]
 E0_ALL = [0.0, 150.0, -300.0]     # ground-state energy offset given to EVERY molecule (1/cm)
+# relaxation_hamiltonian of thermal_excited_state ("Hamiltonian according to which we form
+# thermal equilibrium"): False = not given, True = the aggregate's own Hamiltonian object,
+# "commuting" = ANOTHER operator with the eigenvectors of H but other level energies (band
+# reflected and compressed), "noncommuting" = another operator with other eigenvectors (other
+# site energies and couplings inside the excited band); see _relham_matrix
+RELHAM = [False, True, "commuting", "noncommuting"]
+RELHAM_OTHER = ("commuting", "noncommuting")
 
 
 # prior operations on the same aggregate object (section *_history), see _do_op
@@ -184,6 +209,11 @@ def _histories(depth):
 
 
 def _constraint_hist(c):
+    # another operator as relaxation Hamiltonian: temperature by argument, with the bath, at 0
+    # and 77 K (quick: 77 K), all histories
+    if c.get("relham") in RELHAM_OTHER and (c["tsrc"] != "arg" or c["bath"] != "diff"
+                                            or c["T"] not in (0, 77)):
+        return False
     return all(_op_supported(op, c["sys"], c["bath"]) for op in c["hist"]) and \
         (_constraint(c) if "cond" in c else _constraint_rdm(c))
 
@@ -201,8 +231,34 @@ def _constraint(c):
 def _constraint_quick(c):
     # quick tier: E0 (molecule 0) and e0 (every molecule) both displace the whole aggregate
     # Hamiltonian by a constant (E0 resp. N*e0); their combinations (thorough tier) only add
-    # further values of that constant
+    # further values of that constant.  A relaxation Hamiltonian that is another operator
+    # than H: complete product system x limit x temperature x request context at
+    # E0 = e0 = 0 with the temperature passed by argument and no bath (which then enters
+    # nowhere: no reorganisation energies are subtracted when the option is used); thorough:
+    # E0 in {0, 1000}, all baths
+    if c["relham"] in RELHAM_OTHER and (c["E0"] != 0 or c["e0"] != 0 or c["tsrc"] != "arg"
+                                        or c["bath"] != "none"):
+        return False
+    # the multi-scale systems: complete product condition x relaxation_hamiltonian x
+    # temperature x request context at E0 = e0 = 0, no bath, temperature by argument
+    # (thorough: the full product)
+    if c["sys"] in SYS_MULTISCALE and (c["E0"] != 0 or c["e0"] != 0 or c["tsrc"] != "arg"
+                                       or c["bath"] != "none"):
+        return False
     return _constraint(c) and not (c["E0"] != 0 and c["e0"] != 0)
+
+
+def _constraint_thorough(c):
+    # another operator as relaxation Hamiltonian: ground-state energy of molecule 0 in {0, 1000},
+    # not combined with the offset of every molecule (both are constant displacements of both
+    # Hamiltonians), temperature by argument (the source of the number does not meet the option);
+    # all systems, baths, temperatures.  The multi-scale systems: not combined with e0.
+    if c["relham"] in RELHAM_OTHER and (c["e0"] != 0 or c["E0"] not in (0.0, 1000.0)
+                                        or c["tsrc"] != "arg"):
+        return False
+    if c["sys"] in SYS_MULTISCALE and c["e0"] != 0:
+        return False
+    return _constraint(c)
 
 
 def _constraint_rdm(c):
@@ -211,37 +267,42 @@ def _constraint_rdm(c):
     return (c["bath"] == "none") == (c["T"] == 0)
 
 
+def _constraint_rdm_quick(c):
+    # quick tier: the multi-scale systems without the offset of every molecule
+    return _constraint_rdm(c) and not (c["sys"] in SYS_MULTISCALE and c["e0"] != 0)
+
+
 def cases(tier):
     if tier == "quick":
         dom = {"sys": SYS_QUICK, "E0": [0.0, 1000.0], "e0": E0_ALL, "bath": ["none", "diff"],
-               "cond": CONDS, "relham": [False, True], "tsrc": ["arg", "bath"],
+               "cond": CONDS, "relham": RELHAM, "tsrc": ["arg", "bath"],
                "T": T_DESIGN}
         rdom = {"sys": SYS_QUICK + ["dim_lowE"], "e0": E0_ALL, "bath": ["none", "diff"],
                 "T": T_DESIGN}
         mdom = {"mol": MOL_QUICK, "E0": [0.0, 1000.0] + E0_ALL[1:], "T": T_DESIGN}
         hdom = {"sys": HIST_SYS_QUICK, "E0": [0.0], "e0": [0.0], "bath": ["diff"],
-                "cond": CONDS, "relham": [False, True], "tsrc": ["arg"], "T": [77],
+                "cond": CONDS, "relham": RELHAM, "tsrc": ["arg"], "T": [77],
                 "hist": _histories(1)}
         hrdom = {"sys": HIST_SYS_QUICK, "e0": [0.0], "bath": ["diff"], "T": [77],
                  "hist": _histories(1)}
     else:
         dom = {"sys": SYS_THOROUGH, "E0": [0.0, 1000.0, -1000.0, 20000.0], "e0": E0_ALL,
                "bath": ["none", "same", "diff"],
-               "cond": CONDS, "relham": [False, True], "tsrc": ["arg", "bath"],
+               "cond": CONDS, "relham": RELHAM, "tsrc": ["arg", "bath"],
                "T": sorted(T_DESIGN + T_EXTRA)}
         rdom = {"sys": SYS_THOROUGH, "e0": E0_ALL, "bath": ["none", "same", "diff"],
                 "T": sorted(T_DESIGN + T_EXTRA)}
         mdom = {"mol": MOL_THOROUGH, "E0": [0.0, 1000.0, -1000.0, 20000.0] + E0_ALL[1:],
                 "T": sorted(T_DESIGN + T_EXTRA)}
         hdom = {"sys": HIST_SYS_THOROUGH, "E0": [0.0], "e0": [0.0], "bath": ["none", "diff"],
-                "cond": CONDS, "relham": [False, True], "tsrc": ["arg", "bath"],
+                "cond": CONDS, "relham": RELHAM, "tsrc": ["arg", "bath"],
                 "T": [0, 2, 77, 300], "hist": _histories(2)}
         hrdom = {"sys": HIST_SYS_THOROUGH, "e0": [0.0], "bath": ["none", "diff"],
                  "T": [0, 77, 300], "hist": _histories(2)}
-    agg = product(dom, _constraint_quick if tier == "quick" else _constraint)
+    agg = product(dom, _constraint_quick if tier == "quick" else _constraint_thorough)
     for c in agg:
         c["section"] = "aggregate"
-    rdm = product(rdom, _constraint_rdm)
+    rdm = product(rdom, _constraint_rdm_quick if tier == "quick" else _constraint_rdm)
     for c in rdm:
         c["section"] = "aggregate_rdm"
         c["tsrc"] = "bath"
@@ -376,6 +437,65 @@ def _other_operator(H0, start, cplx=False):
     return X
 
 
+def _relham_matrix(H0, start, kind):
+    """Matrix (site basis, internal units) of the relaxation Hamiltonian of kind `kind`; None
+    when the option is not used, H itself for True.  Ground band and band structure as in H.
+    commuting      c - 0.6*H inside the excited band: the eigenvectors of H, the level order
+                   reversed and the gaps compressed (other Boltzmann weights, other diagonal
+                   in the site basis)
+    noncommuting   H + W inside the excited band, W a fixed symmetric matrix (other site
+                   energies AND couplings; another pattern than the context operator X)"""
+    if not kind:
+        return None
+    R = numpy.array(H0, dtype=float)
+    if kind is True:
+        return R
+    n = R.shape[0]
+    if numpy.max(numpy.abs(R[start:, :start])) > 0 or n - start < 1:
+        raise isolation.HarnessError("H couples the ground and the excited band")
+    Hb = R[start:, start:].copy()
+    if kind == "commuting":
+        wb = numpy.linalg.eigvalsh(Hb)
+        R[start:, start:] = (wb[0] + 0.6 * wb[-1]) * numpy.eye(n - start) - 0.6 * Hb
+    elif kind == "noncommuting":
+        w = 45.0 * BZ.CM2INT
+        for i in range(start, n):
+            for j in range(i, n):
+                a, b = i - start, j - start
+                if i == j:
+                    R[i, i] += w * (((2 * a) % 5) - 2.0) * 3.0
+                else:
+                    v = w * (((2 * a + 5 * b + 3 * a * b) % 7) - 3.0)
+                    R[i, j] += v
+                    R[j, i] += v
+        # the harness promises a relaxation Hamiltonian that does not commute with H whenever
+        # one exists (H not a multiple of unity inside the band)
+        Rb = R[start:, start:]
+        scalar = numpy.max(numpy.abs(Hb - Hb[0, 0] * numpy.eye(n - start))) <= 1e-12 * abs(Hb[0, 0])
+        if n - start >= 2 and not scalar and \
+                numpy.max(numpy.abs(Hb @ Rb - Rb @ Hb)) <= 1e-6 * numpy.max(numpy.abs(Hb)) * w:
+            raise isolation.HarnessError("'noncommuting' relaxation Hamiltonian commutes with H")
+    else:
+        raise isolation.HarnessError("unknown relaxation Hamiltonian kind %r" % (kind,))
+    return R
+
+
+def _relham_operator(kind, Hop, Rmat):
+    """The object passed as relaxation_hamiltonian: the aggregate's own Hamiltonian (True) or
+    a new Hamiltonian created OUTSIDE all basis contexts from the site-basis matrix."""
+    if not kind:
+        return None
+    if kind is True:
+        return Hop
+    return isolation.qr().Hamiltonian(data=numpy.array(Rmat, dtype=float))
+
+
+def _relham_tag(case):
+    """Condition tag of the violation keys (unchanged for the option not used / = H)."""
+    k = case.get("relham")
+    return case["cond"] if k in (False, True, None) else "%s[relham=%s]" % (case["cond"], k)
+
+
 def _check_context_bases(case, start, *bases):
     """The reference needs the ground band to stay the lowest block in every eigenbasis and
     the spectra of the context operators to be non-degenerate (bases fixed up to phases)."""
@@ -467,7 +587,7 @@ def _dm_kwargs(case, Hop):
         kw["relaxation_theory_limit"] = ("weak_coupling" if cond == "tes_weak"
                                          else "strong_coupling")
         if case["relham"]:
-            kw["relaxation_hamiltonian"] = Hop
+            kw["relaxation_hamiltonian"] = Hop      # (the operator made by _relham_operator)
     return kw
 
 
@@ -496,7 +616,8 @@ def _fresh_state_uncached(case, ctx, method):
     Xmat = _other_operator(H0, start)
     Xcmat = _other_operator(H0, start, cplx=True)
     if method == "dm":
-        kw = _dm_kwargs(case, Hop)
+        kw = _dm_kwargs(case, _relham_operator(case["relham"], Hop,
+                                               _relham_matrix(H0, start, case["relham"])))
         fn = lambda: agg.get_DensityMatrix(**kw)
     else:
         fn = lambda: agg.get_thermal_ReducedDensityMatrix()
@@ -699,7 +820,9 @@ def _eval_aggregate(case):
     band_n = None
     ambiguous = False    # T = 0 with a degenerate lowest level: the state is not unique
     hist = list(case.get("hist") or [])
-    ctag = cond if not hist else "after-%s/%s" % ("+".join(hist), cond)
+    rtag_ = _relham_tag(case)
+    ctag = rtag_ if not hist else "after-%s/%s" % ("+".join(hist), rtag_)
+    other = case["relham"] in RELHAM_OTHER
     prior_raised = 0
     for ctx in CTXS:
         fresh = _fresh_state(case, ctx, "dm") if hist else None
@@ -721,6 +844,18 @@ def _eval_aggregate(case):
         _check_context_bases(case, start, (w, U), (wx, V), (wxc, Vc))
         _check_nondegenerate(case, wx)
         _check_nondegenerate(case, wxc)
+        # the Hamiltonian "according to which we form thermal equilibrium": H, or the other
+        # operator supplied as relaxation_hamiltonian (defining basis: ITS eigenbasis for weak
+        # coupling, the site basis with ITS diagonal for strong coupling)
+        Rmat = _relham_matrix(H0, start, case["relham"])
+        if other:
+            Href = Rmat
+            wr, Ur = BZ.eigenbasis(Href)
+            _check_context_bases(case, start, (wr, Ur))
+            condn = BZ.conditioning(max(float(numpy.max(numpy.abs(H0))),
+                                        float(numpy.max(numpy.abs(Href)))), T)
+        else:
+            Href, wr, Ur = H0, w, U
         # basis current at the request (innermost context)
         Breq = {"out": None, "inH": U, "inX": V, "inXH": U, "inHX": V,
                 "inXc": Vc, "inXcH": U, "inHXc": Vc}[ctx]
@@ -734,7 +869,7 @@ def _eval_aggregate(case):
                 outcome.append("prior-raised:" + err)
                 continue
             Hop = agg.get_Hamiltonian()      # (rebuild makes a new operator)
-        kw = _dm_kwargs(case, Hop)
+        kw = _dm_kwargs(case, _relham_operator(case["relham"], Hop, Rmat))
         unsupported = (cond == "tes_strong" and not case["relham"]
                        and (reorgs is None or bool(modes) or mult != 1))
         try:
@@ -830,7 +965,7 @@ def _eval_aggregate(case):
             continue
         # thermal_excited_state: defining basis fixed by the request
         if cond == "tes_weak":
-            Bdef, sub = U, None
+            Bdef, sub = Ur, None
         else:
             Bdef = None
             sub = None
@@ -838,7 +973,7 @@ def _eval_aggregate(case):
                 sub = numpy.zeros(n - start)
                 for i in range(len(en)):
                     sub[i] = reorgs[i] * BZ.CM2INT
-        r = _boltzmann_in_basis(rho, H0, Bdef, start, T, subtract=sub,
+        r = _boltzmann_in_basis(rho, Href, Bdef, start, T, subtract=sub,
                                 cond_slack=_cond_slack(ctx, condn))
         ambiguous = ambiguous or r["degenerate_T0"]
         if hist:
@@ -856,18 +991,32 @@ def _eval_aggregate(case):
             if cond == "tes_weak":
                 # exciton populations placed on the diagonal of the request basis
                 pe = numpy.zeros(n)
-                pe[start:] = BZ.populations(w[start:], T)
+                pe[start:] = BZ.populations(wr[start:], T)
                 Bm = numpy.eye(n) if Breq is None else Breq
                 sig = float(numpy.max(numpy.abs(rho - BZ.state_in_basis(Bm, pe)))) <= TOL_SIG
             else:
-                sig = _signature(rho, H0, Breq, start, T, subtract=sub)
+                sig = _signature(rho, Href, Breq, start, T, subtract=sub)
                 if not sig and T == 0:
                     # at T = 0 the library populates the first band state of the basis
                     # it works in, whatever its energy
                     Bm = numpy.eye(n) if Breq is None else Breq
                     b = Bm[:, start]
                     sig = float(numpy.max(numpy.abs(rho - numpy.outer(b, b.conj())))) <= TOL_SIG
-        if sig and cond == "tes_weak":
+        # label (not an oracle): a state that is diagonal in the eigenbasis of the AGGREGATE
+        # Hamiltonian although another operator was supplied to define the equilibrium
+        wrongham = False
+        if other and cond == "tes_weak" and band_n >= 2:
+            Rw = U.conj().T @ rho @ U
+            wrongham = float(numpy.max(numpy.abs(Rw - numpy.diag(numpy.diag(Rw))))) <= TOL_R
+        if wrongham:
+            acc.add("relham/%s/diagonal-in-eigenbasis-of-aggregate-hamiltonian" % tag,
+                    "T=%g: a relaxation_hamiltonian (%s) was supplied, the state handed out is "
+                    "diagonal in the eigenbasis of the aggregate Hamiltonian, not of the "
+                    "Hamiltonian according to which the equilibrium is formed (coherence %.3g, "
+                    "population error %.3g in the eigenbasis of the latter)"
+                    % (T, case["relham"], r["structure"],
+                       r["ratio_abs"] if numpy.isfinite(r["ratio_abs"]) else float("nan")))
+        elif sig and cond == "tes_weak":
             acc.add("basis/%s/exciton-populations-tagged-as-request-basis" % tag,
                     "T=%g: the matrix holds the exciton-basis Boltzmann populations but is "
                     "labelled with the basis of the request (%s), so it is a different "
@@ -1099,8 +1248,10 @@ def _prior_raised(infos):
 
 def run(run):
     run.rule = ("full product system x ground-state energy of molecule 0 x ground-state offset "
-                "of every molecule x bath x condition x relaxation_hamiltonian x temperature "
-                "source x temperature (aggregates, get_DensityMatrix), system x ground-state "
+                "of every molecule x bath x condition x relaxation_hamiltonian (not given / H "
+                "itself / another commuting operator / another non-commuting operator) x "
+                "temperature source x temperature (aggregates, get_DensityMatrix), system x "
+                "ground-state "
                 "offset of every molecule x bath x temperature (aggregates, "
                 "get_thermal_ReducedDensityMatrix) and "
                 "molecule x ground-state energy x temperature (molecules); each point requested "
@@ -1124,6 +1275,12 @@ def run(run):
         "aggregates with a bath (reorganisation energies); other combinations are counted "
         "as refused, and covered through relaxation_hamiltonian=H",
         "thermal_excited_state only for single-exciton aggregates (mult=1)",
+        "a supplied relaxation_hamiltonian is the Hamiltonian according to which the equilibrium "
+        "is formed (docstring of get_DensityMatrix): its eigenbasis/eigenvalues define the "
+        "weak-coupling state, its site diagonal the strong-coupling state; it is created outside "
+        "all contexts from a site-basis matrix that keeps the ground band of H; quick tier: the "
+        "two 'another operator' kinds and the multi-scale systems only at E0 = e0 = 0, no bath, "
+        "temperature by argument",
         "a bath at exactly 0 K cannot be built; T=0 is passed by argument / no environment",
         "get_thermal_ReducedDensityMatrix takes its temperature from the bath only: the "
         "aggregate_rdm section has T > 0 with a bath and T = 0 without one",
@@ -1149,6 +1306,7 @@ def run(run):
                   "molecules": MOL_QUICK if run.tier == "quick" else MOL_THOROUGH,
                   "E0": sorted(set(c["E0"] for c in agg)),
                   "e0_every_molecule": E0_ALL, "contexts": CTXS,
+                  "relaxation_hamiltonian": [str(k) for k in RELHAM],
                   "history_operations": HIST_OPS,
                   "history_length": max(len(c["hist"]) for c in hag),
                   "history_systems": sorted(set(c["sys"] for c in hag)),
